@@ -35,7 +35,8 @@ Definition judge (c o : sexp) : verdict :=
           if String.eqb op "collapse_len" then
             l <- get_Q "l" c ;;
             Some (Ok (collapse_len l rr rt t),
-                  (if exact then collapse_ok (CLen l) t g else basic_ok t g), "len")
+                  (if exact then collapse_ok (CLen l) t g
+                   else if in_dom && negb rr && rt then collapse_ok_tips (CLen l) t g else basic_ok t g), "len")
           else if String.eqb op "collapse_sup" then
             s <- get_Q "s" c ;;
             Some (Ok (collapse_sup s rr t),
@@ -43,7 +44,8 @@ Definition judge (c o : sexp) : verdict :=
           else if String.eqb op "collapse_depth" then
             mn <- get_Z "min" c ;; mx <- get_Z "max" c ;;
             Some (collapse_depth mn mx rr rt t,
-                  (if exact then collapse_ok (CDepth mn mx) t g else basic_ok t g), "depth")
+                  (if exact then collapse_ok (CDepth mn mx) t g
+                   else if in_dom && negb rr && rt then collapse_ok_tips (CDepth mn mx) t g else basic_ok t g), "depth")
           else if String.eqb op "resolve" then
             raw <- (x <- get "raw" o ;; dec_list dec_N x) ;;
             d <- draws (resolve_bounds t) raw ;;
